@@ -95,7 +95,7 @@ def with_impls(cases, merges, impls, merge_impls, tag):
 
 def exhaustive(ctx):
     """every key set of a tiny universe with every operation over it (TLC model-checking mode)"""
-    cfg = el.cfg_with("Gen_Dict_ex.cfg", MaxKeys=2 if ctx.quick else 3, BlockLens="{1}" if ctx.quick else "{1, 4000}")
+    cfg = el.cfg_with("Gen_Dict_ex.cfg", MaxKeys=2 if ctx.quick else 3, BlockLens="{0}" if ctx.quick else "{0, 1, 4000}")
     g = el.tlc_cases(ctx, "Gen_Dict", cfg, tags=("CASE", "MERGE"), timeout=600, name="Gen_Dict_ex")
     cases = with_impls(g["CASE"], g["MERGE"], ["sstable"] if ctx.quick else ["sstable", "fst"],
                        ["sstable-sum", "fst"] if ctx.quick else ["sstable-sum", "sstable-first", "sstable-void", "fst", "columnar"], "ex")
